@@ -2,6 +2,7 @@
 BLE fragment reassembly.  Real code: aiohomekit/protocol/tlv.py, ble/client.py:_pairing_char_write."""
 import itertools
 
+import aiohomekit.controller.ble.client as real_client
 import aiohomekit.protocol.tlv as real_tlv
 
 from symx import Unit, as_rope, check_property, decide, load, rope_eq, run_canaries, simp, slen
@@ -11,6 +12,92 @@ from . import common
 from .refs import rope, tlv8_encode, tlv8_merge, tlv8_scan
 
 PROP = "C15"
+
+
+CLIENT = "aiohomekit.controller.ble.client"
+
+
+def client_copy(T, mutate=None):
+    return load(CLIENT, deps={"aiohomekit.protocol.tlv": T}, src_transform=(mutate or {}).get(CLIENT))
+
+
+def reassembly_unit(M, CL, r, total):
+    """BLE pairing fragment reassembly (_pairing_char_write): a reply of `total` bytes delivered as r-1 FragmentData pieces and
+    one FragmentLast piece, split at arbitrary positions (empty pieces included)"""
+    from symx import drive
+
+    def h(ex):
+        sym = not getattr(ex, "concrete", False)
+        big = ex.fresh_bytes("value", total - 5, opaque=True)
+        body = tlv8_encode([(6, b"\x02"), (3, big)])  # State + a long value: the reply the state machine will see
+        n = slen(body)
+        cuts = [0]
+        for i in range(r - 1):
+            c = ex.fresh_int("cut%d" % i, 0, 2000)
+            ex.assume(c >= cuts[-1])
+            ex.assume(c <= n)
+            cuts.append(c)
+        cuts.append(n)
+        pieces = []
+        for i, (a, b) in enumerate(zip(cuts, cuts[1:])):
+            chunk = as_rope(body).slice(a, b)
+            pieces.append(tlv8_encode([(0x0D if i == r - 1 else 0x0C, chunk)]))
+        pieces = [p if sym else bytes(p.concrete()) for p in pieces]
+        writes = []
+
+        async def char_write(client, ek, dk, handle, iid, data):
+            writes.append(data)
+            return pieces[len(writes) - 1]
+
+        class Client:
+            address = "aa:bb"
+
+        saved = CL.char_write
+        CL.char_write = char_write
+        try:
+            got = drive(CL._pairing_char_write(Client(), "handle", 1, [(6, b"\x01")]))
+        finally:
+            CL.char_write = saved
+        want = dict((t if isinstance(t, int) else int(t), v) for t, _ln, v in tlv8_merge(tlv8_scan(body)))
+        ex.require(sorted(got.keys()) == sorted(want.keys()), "reassembly: the reassembled reply has the items the accessory sent")
+        for k in want:
+            if k in got:
+                ex.require(rope_eq(got[k], want[k]), "reassembly: item values are the concatenation of the fragments, in order")
+        ex.require(len(writes) == r, "reassembly: one write per fragment (the request, then one acknowledgement per non-final fragment)")
+        ex.require(rope_eq(writes[0], b"\x06\x01\x01"), "reassembly: the first write is the encoded request")
+        for w in writes[1:]:
+            ex.require(rope_eq(w, b"\x0c\x00"), "reassembly: every further write is the empty FragmentData acknowledgement")
+        if any(decide(a == b) for a, b in zip(cuts, cuts[1:])):
+            ex.tag("empty-fragment")
+        return ex.observe([len(writes), slen(got.get(3, b""))])
+    return h
+
+
+def too_many_fragments(CL):
+    """more than MAX_REASSEMBLY fragments must end with an error, not loop forever (real library, concrete)"""
+    from symx import drive
+    n = {"i": 0}
+
+    async def char_write(client, ek, dk, handle, iid, data):
+        n["i"] += 1
+        return bytes([0x0C, 1, 0x41])
+
+    class Client:
+        address = "aa:bb"
+
+    saved = CL.char_write
+    CL.char_write = char_write
+    errs = []
+    try:
+        try:
+            drive(CL._pairing_char_write(Client(), "handle", 1, [(6, b"\x01")]))
+            errs.append("an endless stream of fragments was accepted after %d pieces" % n["i"])
+        except ValueError:
+            if n["i"] != CL.MAX_REASSEMBLY:
+                errs.append("gave up after %d fragments, MAX_REASSEMBLY is %d" % (n["i"], CL.MAX_REASSEMBLY))
+    finally:
+        CL.char_write = saved
+    return {"cases": 1, "errors": errs}
 
 
 def copies(mutate=None):
@@ -178,6 +265,11 @@ def build(tier, mutate=None):
         add("encode/" + ",".join(map(str, c)), encode_unit, c, bounds={"lengths": list(c), "types": "0..255 symbolic"})
     add("encode-key-range/1", encode_unit, (1,), -3, 258, bounds={"lengths": [1], "types": "-3..258 symbolic"},
         regions=["ValueError"])
+    CL = client_copy(T, mutate)
+    for r, total in ([(2, 40)] if tier == "canary" else [(2, 40), (3, 300)] if tier == "quick" else [(2, 40), (3, 300), (4, 300), (3, 600)]):
+        units.append(Unit("ble-reassembly/pieces=%d,reply=%d bytes" % (r, total), reassembly_unit(T, CL, r, total), reassembly_unit(R, real_client, r, total),
+                          split=True, bounds={"fragments": r, "reply_bytes": total, "split positions": "all (symbolic), empty fragments included"},
+                          regions=["empty-fragment"]))
     return units
 
 
@@ -185,6 +277,7 @@ CANARIES = [
     ("fragment size 255 -> 256", {"aiohomekit.protocol.tlv": lambda s: s.replace("if len(value) > 255:\n                    length = 255", "if len(value) > 256:\n                    length = 256")}, lambda n: n.startswith("encode/256")),
     ("merge of equal-typed neighbours dropped", {"aiohomekit.protocol.tlv": lambda s: s.replace("if len(result) > 0 and result[-1][0] == key:", "if False:")}, lambda n: n.startswith("encode/256")),
     ("length check dropped", {"aiohomekit.protocol.tlv": lambda s: s.replace("if length != len(value):", "if False:")}, lambda n: n.startswith("totality")),
+    ("fragment acknowledgement carries data", {CLIENT: lambda s: s.replace("next_write = bytes([TLV.kTLVType_FragmentData, 0])", "next_write = bytes([TLV.kTLVType_FragmentData, 1, 0])")}, lambda n: n.startswith("ble-reassembly")),
     ("separator emitted with length 1", {"aiohomekit.protocol.tlv": lambda s: s.replace("            if len(value) == 0:\n                result.append(key)\n                result.append(0)", "            if len(value) == 0:\n                result.append(key)\n                result.append(1)")}, lambda n: n.startswith("encode/0,1")),
 ]
 
@@ -208,7 +301,8 @@ def main(tier, seed, only=None):
                     "decode(encode(x)) == x and decode(ref_encode(x)) == x for symbolic types and opaque contents at boundary "
                     "lengths; expected-types filter against a reference scan.",
         assumptions=ASSUMPTIONS, stubs=["K_TLV_TYPE_NAMES/K_TLV_ERROR_NAMES -> placeholder for symbolic keys (formatting only; TLV.to_string itself runs)", "logger -> no-op"],
-        bounds={"tier": tier}, canaries=can, design_ref="DESIGN.md section 5, C15")
+        bounds={"tier": tier}, canaries=can, design_ref="DESIGN.md section 5, C15",
+        extra_checks=[] if only else [("ble-reassembly: too many fragments (concrete side check)", lambda: too_many_fragments(real_client))])
 
 
 def replay(doc):
